@@ -21,7 +21,7 @@ BOUNDS = {
     "quick": "abc explicit (64 interval interpretations each), at explicit (64), diamonds explicit, fixed/ab; 16-bit family wide/1 x 9 interval options per wide leaf x grid completions",
     "thorough": "quick + abt (256 interpretations), abc generated, abu, d3/abc, diamonds generated, abct",
 }
-QUICK = ["abc/explicit", "at/explicit", "diamond/explicit", "fixed/ab", "mix3/abt/explicit"]
+QUICK = ["abc/explicit", "at/explicit", "diamond/explicit", "fixed/ab", "mix3/abt/explicit", "empty/ab", "au/explicit"]
 THOROUGH = QUICK + ["abt/explicit", "abc/generated", "au/explicit", "d3/abc/explicit", "diamond/generated", "abct/explicit", "tn/explicit"]
 
 
